@@ -74,7 +74,7 @@ CLAIMS = {
     "C07": {
         "text": "Exploration: (a) 3-40-step sequential histories with boundary-biased u64 arguments, getters/fraction compared with a wrapping/saturating model after every step, in release and debug (overflow-checking) builds; (b) 2-16 OS threads x 1-3 clones x up to 100000 inc/dec calls each on one shared bar with hidden / unlimited / 20 Hz targets and an optional 1 ms steady ticker: conservation of the wrapping sum after join (no lost update) and no backwards read in inc-only runs.",
         "design_ref": "DESIGN.md §4 C07",
-        "note": "Interleavings are whatever the OS scheduler produces on 16 cores (contention indicator in the evidence: reads that observed foreign updates); no systematic schedule enumeration.",
+        "note": "Interleavings are whatever the OS scheduler produces on 16 cores (contention indicator in the evidence: reads that observed foreign updates) plus Miri's seeded preemptive scheduler with weak-memory emulation and data-race detection on tiny workloads (miri lane); no systematic schedule enumeration.",
         "technique": "runtime monitoring: shadow model for getters + conservation/monotonicity monitor over concurrent increments",
     },
     "C09": {
@@ -112,6 +112,12 @@ CLAIMS = {
         "design_ref": "DESIGN.md §4 C17",
         "note": "Separate binary vh-adapt (indicatif features rayon, tokio, futures). Erroring calls of the all-or-nothing std methods (read_exact, read_to_end) are exempt from the byte law. Rayon interleavings are whatever the pool produces.",
         "technique": "runtime monitoring: twin (differential) comparison at the adaptor boundary + conservation of the count",
+    },
+    "C08": {
+        "text": "Exploration of schedules, with liveness restated as 'no provably permanent block': (1) stress lane - scenarios of 2-3 threads x 1-6 public calls on shared handles (with/without a running ticker, intervals 1 ms..1 h, hidden/visible/MultiProgress targets) run three times under seeded delay schedules injected by the verif-hooks shim between critical sections and in front of nested lock requests/joins; an online wait-for-graph watchdog (lock -> holder, join -> target) reports a cycle of untimed waits seen in two consecutive samples; an offline class-level lock-order graph (incl. join edges) flags inversions that did not manifest and tries to confirm them with 40 directed runs; every ticker thread started must have exited when the last handle is dropped; (2) ticker lifecycle lane - disable / replace / drop-last-handle / finish / manual-tick-is-inert for every interval: the call returns only after the old ticker's ThreadExit, no frame from the ticker thread after finish()/disable returns, the ticker redraws without manual ticks, a joiner stuck on a ticker in an hour-long timed wait is a lost wake-up; (3) Miri lane - tiny 2-3-thread workloads under Miri's seeded preemptive scheduler with its deadlock detector.",
+        "design_ref": "DESIGN.md §4 C08",
+        "note": "Interleavings come from OS scheduling + injected delays + Miri's scheduler, not from systematic enumeration; hour-long intervals are exercised by their logical effect (timed wait still pending when the stop is requested). A watchdog expiry without a provable cycle is inconclusive, never a violation. 'Stops when finished' is read as: no further redraw and exit no later than the next wake-up or the last drop.",
+        "technique": "runtime monitoring: wait-for-graph watchdog + lock-order (Goodlock-style) analysis over hooked lock/thread events, ticker trace properties, Miri deadlock detection",
     },
 }
 
